@@ -423,6 +423,36 @@ func c18Run(r *Run, h int) {
 			})
 		})
 	}
+	// readers with explicit conditions (WhereAll / WhereAny): the rows are selected by condition and then
+	// fetched one by one, all under the table's lock; three of them, so that a lock taken twice by one
+	// reader meets the writer that applies notifications in between
+	for k := 0; k < 3; k++ {
+		spawn(rng.Int63(), func(lr *rand.Rand) {
+			stat.call("WhereAll(cond).List", limit, func(ctx context.Context) error {
+				key := fmt.Sprintf("r%d", 1+lr.Intn(nRows))
+				probe := adb.NewModel("Pair", "", Row{"key": VA(AS(key))})
+				cond := model.Condition{Field: fieldPtrs(adb, "Pair", probe, []string{"key"})[0], Function: ovsdb.ConditionEqual, Value: key}
+				if lr.Intn(2) == 0 {
+					cond.Function = ovsdb.ConditionNotEqual
+				}
+				res := reflect.New(reflect.SliceOf(reflect.PtrTo(pairType)))
+				var err error
+				if lr.Intn(2) == 0 {
+					err = a.WhereAll(probe, cond).List(ctx, res.Interface())
+				} else {
+					err = a.WhereAny(probe, cond).List(ctx, res.Interface())
+				}
+				if err == nil {
+					var ms []model.Model
+					for i := 0; i < res.Elem().Len(); i++ {
+						ms = append(ms, res.Elem().Index(i).Interface())
+					}
+					checkModels(ms)
+				}
+				return err
+			})
+		})
+	}
 	// a reader whose predicate looks at the rows the cache holds (WhereCache): the predicate must never be
 	// shown a row that mixes two versions, and neither must the result
 	spawn(rng.Int63(), func(lr *rand.Rand) {
